@@ -268,8 +268,11 @@ PROPS = {
                         "generation check and the insertion of one TimedCache::fill call (the residual window is stated: evict_in_fill_witness)"],
     },
     "C14": {
-        "thm_module": ["AkdModel.Thm.C01b", "AkdModel.Thm.C01a"],
-        "theorems": ["Akd.C01.batchInsert_perm", "Akd.C01.batchInsert_refines", "Akd.C01.ofLeaves_perm", "Akd.C01.wf_unique"],
+        "thm_module": ["AkdModel.Thm.C01b", "AkdModel.Thm.C01a", "AkdModel.Thm.C14", "AkdModel.Thm.C16"],
+        "theorems": ["Akd.C01.batchInsert_perm", "Akd.C01.batchInsert_split", "Akd.C01.batchInsert_split_rootHash",
+                     "Akd.C01.batchInsert_refines_sameEpoch", "Akd.C01.batchInsert_refines", "Akd.C01.ofLeaves_perm", "Akd.C01.wf_unique",
+                     # the object cache cannot change what a read returns (C16): the formal reason results do not depend on it
+                     "Akd.Store.get_eq_truth", "Akd.Store.batchGet_eq_truth", "Akd.Store.inv_run"],
         "streams": ["l1.c14"],
         "matrix": [
             {"name": "seq-nocache", "flags": []},
